@@ -650,6 +650,15 @@ unsigned cmb_random_loaded_dice(const unsigned n, const double *pa)
         }
     }
 
+    /*
+     * The probabilities may sum to slightly less than 1.0 (within the accepted
+     * tolerance, or by rounding). The remainder belongs to the last entry, as
+     * in the alias method.
+     */
+    if (ui >= n) {
+        ui = n - 1u;
+    }
+
     cmb_assert_debug(ui < n);
     return ui;
 }
